@@ -709,7 +709,13 @@ def load_known_findings():
 
 def run_obligation(repo, ob):
     ctx = Ctx(repo, ob.oid)
-    ob.fn(ctx)
+    try:
+        ob.fn(ctx)
+    except AnalysisError as e:
+        # a violation that was already established stands; what could not be decided afterwards is kept as a note
+        if not ctx.findings:
+            raise
+        ctx.note('not decided after the finding(s): %s' % str(e)[:200])
     if ctx.unsure_msgs and not ctx.findings:
         raise AnalysisError('%s: %s' % (ob.oid, ctx.unsure_msgs[0]))
     return ctx
